@@ -33,6 +33,7 @@ type Contract struct {
 	Inline   bool     // body is inlined at call sites (its loop specs are used there)
 	Pure     bool     // ensures clauses define the result as a function of the arguments (no heap effect)
 	Assigns  []string // informational; the effective frame is the inferred mod set
+	DynCallees []string // possible targets of calls through non-operator function values in this function
 	Trusted  bool     // contract is assumed at call sites but the body is not verified (listed as assumption)
 	Line     int
 	Opaque   []string // clause labels only
@@ -59,15 +60,16 @@ type Spec struct {
 	Lemmas    []*Lemma
 	Axioms    []string // assumed facts (each listed in the evidence)
 	Macros    map[string]*Macro
+	FieldInvs map[string]*core.Sexp // "Type.field" -> invariant over $v (assumed at loads, proved at stores)
 	Errors    []string
 }
 
 var clauseKeywords = map[string]bool{"func": true, "requires": true, "ensures": true, "loop": true, "invariant": true,
-	"decreases": true, "lemma": true, "macro": true, "ghost": true, "axiom": true, "inline": true, "assigns": true, "props": true, "trusted": true, "pure": true, "end": true}
+	"decreases": true, "lemma": true, "macro": true, "dyncallees": true, "fieldinv": true, "ghost": true, "axiom": true, "inline": true, "assigns": true, "props": true, "trusted": true, "pure": true, "end": true}
 
 // ParseSpec reads the //@ lines of the guarded contract file.
 func ParseSpec(lines []load.ContractLine) *Spec {
-	sp := &Spec{Contracts: map[string]*Contract{}, Macros: map[string]*Macro{}}
+	sp := &Spec{Contracts: map[string]*Contract{}, Macros: map[string]*Macro{}, FieldInvs: map[string]*core.Sexp{}}
 	// group into clauses: a clause starts at a line whose first word is a keyword and
 	// extends over following lines until the next keyword line.
 	type raw struct {
@@ -155,6 +157,10 @@ func ParseSpec(lines []load.ContractLine) *Spec {
 			if cur != nil {
 				cur.Assigns = append(cur.Assigns, r.rest)
 			}
+		case "dyncallees":
+			if cur != nil {
+				cur.DynCallees = append(cur.DynCallees, strings.Fields(r.rest)...)
+			}
 		case "requires", "ensures":
 			if cur == nil {
 				sp.Errors = append(sp.Errors, fmt.Sprintf("line %d: %s outside func", r.line, r.kw))
@@ -211,6 +217,18 @@ func ParseSpec(lines []load.ContractLine) *Spec {
 			} else {
 				curLoop.Decreases = &c
 			}
+		case "fieldinv":
+			f := strings.SplitN(strings.TrimSpace(r.rest), " ", 2)
+			if len(f) != 2 {
+				sp.Errors = append(sp.Errors, fmt.Sprintf("line %d: fieldinv needs Type.field and an expression", r.line))
+				continue
+			}
+			sx, _, err := core.ParseSexp(f[1])
+			if err != nil || sx == nil {
+				sp.Errors = append(sp.Errors, fmt.Sprintf("line %d: cannot parse fieldinv", r.line))
+				continue
+			}
+			sp.FieldInvs[f[0]] = sx
 		case "macro":
 			xs, err := core.ParseAll(r.rest)
 			if err != nil || len(xs) != 2 || xs[0].IsAtom() || len(xs[0].List) == 0 {
